@@ -262,7 +262,7 @@ fn script_facts(p: &Prog) -> (u64, bool, Option<u64>) {
 }
 
 fn is_stream_kind(p: &Prog) -> bool {
-    !p.fail && !matches!(p.kind, BodyKind::None | BodyKind::Bytes)
+    !matches!(p.kind, BodyKind::None | BodyKind::Bytes)
 }
 
 /// The body script errors or ends short of its declared size: terminating the connection (with the
@@ -292,9 +292,6 @@ fn body_fails(p: &Prog, method: &str) -> bool {
 fn expected_body(p: &Prog, rec: &ReqRec, method: &str) -> Vec<u8> {
     if bodiless(method, p.status) {
         return vec![];
-    }
-    if p.fail {
-        return b"svc-error".to_vec();
     }
     let mut b = rec.resp_yielded.clone();
     let declared = match (&p.kind, p.no_chunking) {
@@ -358,7 +355,7 @@ fn judge(case: &Case, oc: &Outcome) -> Judged {
     let cut = (0..n).find(|&i| {
         case.reqs[i].wants_close() || case.cfg.keep_alive_s.is_none() || case.progs[i].conn == Conn::Close || may_terminate(&case.progs[i])
             // a close-delimited body ends the connection by definition
-            || (case.reqs[i].v10 && matches!(case.progs[i].kind, BodyKind::BodyStream | BodyKind::CustomStream) && !case.progs[i].fail)
+            || (case.reqs[i].v10 && matches!(case.progs[i].kind, BodyKind::BodyStream | BodyKind::CustomStream))
     });
     out.cut = cut;
     let last = cut.unwrap_or(n.saturating_sub(1));
@@ -767,11 +764,9 @@ pub fn gen_request(rng: &mut Rng, last: bool) -> ReqSpec {
 pub fn gen_prog(rng: &mut Rng, i: usize, gated: bool) -> Prog {
     let mut p = Prog { post_gate: if gated { Some(2 * i) } else { None }, ..Default::default() };
     p.status = *rng.pick(&[200u16, 200, 200, 200, 404, 500, 204, 304, 201]);
-    if rng.chance(1, 25) {
-        p.fail = true;
-        p.status = 500;
-        return p;
-    }
+    // one program in eight reaches the dispatcher through the service's `Err` path (a separate
+    // copy of the response-sending code); everything else about it is generated as usual
+    p.fail = rng.chance(1, 8);
     let kind = rng.below(8);
     let nchunks = rng.below(5);
     let mut steps = vec![];
